@@ -403,6 +403,15 @@ func c06Body(faulty bool) func(rc *RunCtx) {
 		}
 		// let the queue drain / timers run
 		simrt.Settle(int64(40 * time.Second))
+		if !faulty && simrt.ChanceF(1, 6) {
+			// second life: the application destroys the client and asks for a new one; the sends
+			// of the recovery phase go through it
+			simrt.Note("application calls Destroy() and GetOneWayTcpClient() again")
+			simrt.Probe("client_destroyed_and_recreated")
+			client.Destroy()
+			simrt.Settle(int64(6 * time.Second)) // the old background goroutine sees the cancel at its next wake-up
+			client = oneway.GetOneWayTcpClient(opts...)
+		}
 		// ---- heal: faults stop, every server is up ----
 		d.healed = true
 		n.DialFail = 0
